@@ -81,7 +81,17 @@ def main():
         sh('git -C /repo worktree remove --force %s' % wt)
         sh('/venv/bin/python harness/extract.py', cwd=V)
         sh('git checkout -- lean/PyCliffordModel/Generated', cwd=V)
-    json.dump(res, open(os.path.join(seed, 'result.json'), 'w'), indent=1)
+    old = os.path.join(seed, 'result.json')
+    if a.notests and os.path.exists(old):
+        try:
+            prev = json.load(open(old))
+            if 'stable_tests' in prev:
+                res['stable_tests'] = prev['stable_tests']
+            for k, v in (prev.get('checks') or {}).items():
+                res['checks'].setdefault(k, v)
+        except Exception:
+            pass
+    json.dump(res, open(old, 'w'), indent=1)
     print(json.dumps(res, indent=1))
 
 
